@@ -29,10 +29,12 @@ LITS = {
     'str-blanks': ('str', 'two  blanks'), 'uri-blanks': ('uri', 'a  b'), 'refdis-blanks': ('ref', 'x', 'Dis  play'),
     'bin': ('bin', 'm'), 'uri-m': ('uri', 'm'), 'bin-mime': ('bin', 'text/plain'),
     # magnitudes whose shortest spelling has an exponent (1e+16, 1.5e+20kg, 1e-05, 1e+300)
+    # the singleton literals: comparing with them is a comparison like any other (a string "N" is not null)
+    'null': D.NULL, 'marker': D.MARKER, 'na': D.NA,
     'big': NUM(1e16), 'bigq': NUM(1.5e20, 'kg'), 'small': NUM(1e-05), 'huge': NUM(1e300), 'negbig': NUM(-2.5e17),
     'uri-esc': ('uri', 'http://u/`tick'), 'inf': NUM(float('inf')), 'ninf': NUM(float('-inf')), 'refdis': ('ref', 'x', 'Dis play'),
 }
-EXTRA_LITS = ('big', 'bigq', 'small', 'huge', 'negbig', 'bin-mime', 'uri-m', 'dt', 'numf', 'neg', 'str2', 'false', 'qty2', 'str-esc', 'str-uni', 'str-nl', 'uri-esc', 'inf', 'ninf', 'str-blanks', 'uri-blanks')
+EXTRA_LITS = ('null', 'marker', 'na', 'big', 'bigq', 'small', 'huge', 'negbig', 'bin-mime', 'uri-m', 'dt', 'numf', 'neg', 'str2', 'false', 'qty2', 'str-esc', 'str-uni', 'str-nl', 'uri-esc', 'inf', 'ninf', 'str-blanks', 'uri-blanks')
 POOL = {
     # value pool per data tag: covers equal / below / above / other kind / other unit for every literal above
     'a': [None, D.NULL, D.MARKER, NUM(5), NUM(4), NUM(6), NUM(5.0), NUM(2.5), NUM(-3), NUM(5, 'kg'), NUM(4, 'kg'), NUM(6, 'kg'),
@@ -43,6 +45,7 @@ POOL = {
           ('dt', (2021, 1, 1, 0, 0, 0, 0), 0, 'UTC'), ('str', 'hello world'), NUM(1.5, u'\u00b0C'), ('coord', 1.0, 2.0),
           ('str', 'two  blanks'), ('str', 'two blanks'), ('uri', 'a  b'), ('uri', 'a b'),
           ('str', 'q"uo\\te'), ('str', u'caf\u00e9 \U0001f600'), ('str', 'two\nlines'), ('uri', 'http://u/`tick'), NUM(float('inf')),
+          ('str', 'N'), ('str', 'M'), ('str', 'NA'), ('str', 'R'), ('str', 'T'), ('str', 'F'), D.NA, D.REMOVE,
           NUM(float('-inf')), NUM(1e300), NUM(1e16), NUM(1.5e20, 'kg'), NUM(1e-05), NUM(-2.5e17), NUM(2e16), NUM(1e20, 'kg'), ('bin', 'm'), ('bin', 'a'), ('bin', 'z'), ('uri', 'm'), ('uri', 'a'), ('uri', 'z'),
           ('bin', 'text/plain'), ('uri', 'text/plain'), ('str', 'text/plain')],
     'r': [None, ('ref', 'x', None), ('ref', 'y', None), ('ref', 'nowhere', None), ('str', 'x'), D.MARKER, NUM(5), ('ref', 'x', 'Dis')],
